@@ -64,6 +64,8 @@ def fam_restart(rnd, i, thorough, damage=False, inbound=False):
                 op["m"] = "PublishExactlyOnce"
         b["cfg"]["emax"] = 4
         b["random"]["faults"] = rnd.choice([0, 0, 1])
+        if rnd.random() < 0.6:
+            b["random"]["mute"] = ["PUBCOMP"]     # withheld acknowledgements: the PUBREL stage outlives the stops
     for g in range(2 if q2heavy else rnd.choice([1, 1, 2])):
         procs = {"rd%d" % (g + 2): {"kind": "reader"}}
         ops = [{"m": "PublishExactlyOnce" if q2heavy else rnd.choice(PERSISTED[:2]), "tag": 100 * (g + 1) + k + 1, "size": 8}
